@@ -287,6 +287,8 @@ class Interp:
             if name in f.locals:
                 return f.locals[name]
             f = f.parent
+        if frame.fi is not None and name in _local_names(frame.fi):
+            raise RaiseEx("UnboundLocalError", None)
         return self.lookup_global(name, frame.mod)
 
     def lookup_global(self, name, mod):
@@ -886,6 +888,26 @@ class Interp:
             if len(recv.members) == 1:
                 return next(iter(mapped))
             return Ch("%s.%s" % (recv.name, name), mapped)
+        if isinstance(recv, Ch) and name in ("lower", "upper") and recv.members is None:
+            E = recv.excluded
+            if all(c.upper() in E and c.lower() in E for c in E):
+                return recv
+        if name == "capitalize":
+            u = (recv if isinstance(recv, AbsStr) else AbsStr([recv])).units()
+            if u and not any(isinstance(x, (Run, Rep)) for x in u):
+                first = self.str_method(u[0], "upper", [], node) if isinstance(u[0], Ch) else u[0].upper()
+                rest = [self.str_method(x, "lower", [], node) if isinstance(x, Ch) else x.lower() for x in u[1:]]
+                return simplify_str(AbsStr([first] + rest))
+        if isinstance(recv, AbsStr) and name in ("lower", "upper"):
+            out = []
+            for a in recv.atoms:
+                if isinstance(a, str):
+                    out.append(getattr(a, name)())
+                elif isinstance(a, Ch):
+                    out.append(self.str_method(a, name, args, node))
+                else:
+                    raise CannotDecide("string method %s on %r" % (name, recv))
+            return simplify_str(AbsStr(out))
         raise CannotDecide("string method %s on %r" % (name, recv))
 
     def call_builtin(self, name, args, kwargs, node=None):
@@ -925,6 +947,11 @@ class Interp:
             if isinstance(v, str):
                 return list(v)
             return Opaque(name, args)
+        if name == "enumerate" and isinstance(args[0], (list, tuple)):
+            start = args[1] if len(args) > 1 and isinstance(args[1], int) else kwargs.get("start", 0)
+            return [(i + start, x) for i, x in enumerate(args[0])]
+        if name == "zip" and all(isinstance(a, (list, tuple)) for a in args):
+            return [tuple(t) for t in zip(*args)]
         if name == "reversed" and isinstance(args[0], (list, tuple)):
             return list(reversed(args[0]))
         if name == "sorted" and isinstance(args[0], (list, tuple)) and not _has_abs(args[0]) and not kwargs:
@@ -948,6 +975,16 @@ class Interp:
                 return -args[0]
         if name == "str" and isinstance(args[0], (Ch, AbsStr)):
             return args[0]
+        if name == "cycle" and isinstance(args[0], (list, tuple)):
+            return ("<cycle>", list(args[0]))
+        if name == "islice" and isinstance(args[0], tuple) and args[0] and args[0][0] == "<cycle>" \
+                and all(isinstance(a, int) for a in args[1:]) and len(args) == 3:
+            base = args[0][1]
+            if not base:
+                return []
+            return [base[i % len(base)] for i in range(args[1], args[2])]
+        if name == "islice" and isinstance(args[0], (list, tuple)) and all(isinstance(a, int) for a in args[1:]):
+            return list(args[0])[slice(*args[1:])]
         if name == "hasattr":
             return self.fork("hasattr: %s" % short(node))
         if name in _exc_names():
@@ -1212,6 +1249,23 @@ _BUILTINS = {"len", "range", "list", "tuple", "dict", "set", "sorted", "reversed
              "bytearray", "object", "super", "divmod", "pow", "any", "all", "repr", "id", "hex",
              "string_types", "integer_types", "binary_type", "text_type", "cycle", "islice", "log", "pack",
              "a2b_hex", "reduce"}
+
+
+_LOCALS_CACHE = {}
+
+
+def _local_names(fi):
+    k = id(fi.node)
+    if k not in _LOCALS_CACHE:
+        names = set(fi.params)
+        for n in ast.walk(fi.node):
+            if isinstance(n, ast.Name) and isinstance(n.ctx, ast.Store):
+                names.add(n.id)
+        for n in ast.walk(fi.node):
+            if isinstance(n, ast.Global):
+                names -= set(n.names)
+        _LOCALS_CACHE[k] = names
+    return _LOCALS_CACHE[k]
 
 
 def _exc_names():
